@@ -279,7 +279,7 @@ def g_scenario(node):
 # -- (d) CLI subprocess ------------------------------------------------------------------------------
 
 def cli_cases(tier):
-    return [{"fmt": f, "k": k} for f in ("json", "yaml") for k in range(3 if tier == "quick" else 8)]
+    return [{"fmt": f, "k": k, "explicit": e} for f in ("json", "yaml") for k in range(3 if tier == "quick" else 8) for e in (False, True)]
 
 
 def run_cli(case, agg):
@@ -288,9 +288,11 @@ def run_cli(case, agg):
     desc = build(m, "severed", (k * 7) % 16, gen.ALG5[k % 5], gen.ALG5[(k + 2) % 5], "ab" * 32, "cd" * 32)
     desc["SUIT_Envelope_Tagged"]["suit-integrated-dependencies"] = {"#child": gen.child_env(seq=k)}
     with fresh_dir("c01cli") as root:
-        inp = os.path.join(root, "in." + case["fmt"])
+        inp = os.path.join(root, "in." + ("cfg" if case.get("explicit") else case["fmt"]))
         impl.dump_desc(desc, inp, case["fmt"])
-        rc, out, err = impl.cli(["create", "--input-file", inp, "--output-file", os.path.join(root, "o.suit")], root)
+        impl.prefill(os.path.join(root, "o.suit"))
+        rc, out, err = impl.cli(["create", "--input-file", inp, "--output-file", os.path.join(root, "o.suit")]
+                                + (["--input-format", case["fmt"]] if case.get("explicit") else []), root)
         if rc != 0:
             agg.viol("C01:cli-create-failed", f"{case}: rc={rc} {err[-300:]}")
             return
